@@ -175,7 +175,7 @@ static void run(const vf::Args& a, vf::Evidence& ev, vf::Reporter& rep) {
             "61 s of a whole hour and the +-24h neighbourhood), each x instants {int64 min/max, 0, +-2^31, +-2^59, "
             "generated}: name, abbreviation, lookup both ways, load by name, no data-source access, name->offset. "
             "(2) rapidcheck: names built from possibly out-of-range fields with 0-3 edits (replace/insert/delete/case, "
-            "NUL and 8-bit bytes) and random strings, against the documented acceptance rule. Non-trivial: every "
+            "NUL and 8-bit bytes) and random strings, against the documented acceptance rule. (3) rapidcheck: int64 offsets far beyond 24 h (+-2^k, multiples of 2^32 +- in-range values, uniform): must be UTC. Non-trivial: every "
             "non-zero offset (distinct by value); names within the mutation family (distinct by content).";
   // generated instants (shared by all offsets of this shard), drawn once from rapidcheck
   std::vector<int64_t> extra;
@@ -216,6 +216,19 @@ static void run(const vf::Args& a, vf::Evidence& ev, vf::Reporter& rep) {
   ev.exhaustive = a.thorough();
   ev.extra["offsets_enumerated"] = std::to_string(n_off);
 
+  // offsets far beyond 24 hours (any int64 second count): always UTC
+  vf::rc_run("C15.huge_offsets", a.stream_seed(3), (int)a.budget(3000, 40000), rep, [&]() {
+    int64_t o = *rc::gen::oneOf(vf::edge_i64(), vf::any_i64(),
+                                rc::gen::map(rc::gen::tuple(vf::range<int64_t>(-3, 3), vf::range<int64_t>(-90000, 90000)),
+                                             [](const std::tuple<int64_t, int64_t>& t) { return (int64_t)(std::get<0>(t) * 4294967296LL + std::get<1>(t)); }));
+    ev.eval();
+    ev.cls((o > 86400 || o < -86400) ? "offset_beyond_24h" : "offset_within_24h_generated");
+    ev.nt(vf::splitmix((uint64_t)o) ^ 0x77);
+    vf::Case c; c.set("offset", o); c.set("instants", "0 1700000000");
+    vf::CurrentScope cs([&]() { return c; });
+    std::string why;
+    if (!check_offset(o, {0, 1700000000}, &why)) { rep.failing(c, why); RC_FAIL(why); }
+  });
   long budget = a.budget(30000, 400000);
   vf::rc_run("C15.names", a.stream_seed(1), (int)budget, rep, [&]() {
     std::string n = *name_gen();
